@@ -302,6 +302,12 @@ def install(E):
             return NULL
         opened[key(sp)] = name
         st.user["opened"] = opened
+        # what is written becomes the content of the (virtual) file: truncated on open unless std::ios_base::app
+        mode = a[2] if isinstance(a[2], int) else 16
+        nf = dict(files)
+        if not (mode & 1) or name not in nf:
+            nf[name] = []
+        st.user["vfiles"] = nf
         return a[0]
     X["_ZNSt13basic_filebufIcSt11char_traitsIcEE4openEPKcSt13_Ios_Openmode"] = filebuf_open
 
@@ -382,6 +388,11 @@ def install(E):
                 return os_          # the process' standard streams: diagnostics only, discarded
             raise EngineError("output to an object that is not a modelled stream")
         r["buf"].extend(data)
+        nm = (st.user.get("opened") or {}).get(key(os_))
+        if nm is not None and r["kind"] != "ifstream":
+            nf = dict(st.user.get("vfiles") or {})
+            nf[nm] = list(nf.get(nm, [])) + list(data)
+            st.user["vfiles"] = nf
         sync_out(E, st, os_, r)
         return os_
 
